@@ -578,6 +578,7 @@ def write_evidence(pid, tier, seed, spec, merged, wall, n_viol):
         "samples": samples,
         "counters": {k: v for k, v in counters.items() if k == pid or not k.startswith("C")},
         "inconclusive_runs": len(merged["inconclusive"]),
+        "other_distinct_counts": {k: len(v["set"]) + v["n_disjoint"] for k, v in merged["distinct"].items() if not k.startswith("C")},
         "notes": merged["notes"][:40],
     }
     if spec["level"] == "translation_validation":
@@ -767,14 +768,18 @@ def main():
         log(f"   {sig}: {first['what']}")
     if seen:
         sys.exit(1)
-    if errors:
-        for e in errors:
-            log("HARNESS-ERROR/INCONCLUSIVE:", e)
-        print(f"INCONCLUSIVE property={pid} ({len(errors)} monitor processes did not finish normally)")
-        sys.exit(2)
     # coverage floor: a run that observed nothing proves nothing
     grp, key = spec["primary"]
     seen_n = merged["counters"].get(grp, {}).get(key, 0)
+    if errors:
+        for e in errors:
+            log("HARNESS-ERROR/INCONCLUSIVE:", e)
+        # a few monitor processes lost to a watchdog (e.g. on an overloaded machine) leave the verdict
+        # of the others intact; the loss is recorded in the evidence.  Many lost, or too little
+        # observed, means there is no verdict.
+        if len(errors) * 5 > max(1, len(files)) or seen_n < 20:
+            print(f"INCONCLUSIVE property={pid} ({len(errors)} of {len(files)} monitor processes did not finish normally)")
+            sys.exit(2)
     if seen_n < 20:
         print(f"INCONCLUSIVE property={pid} (only {seen_n} {key} observed)")
         sys.exit(2)
